@@ -23,8 +23,8 @@ Local Open Scope Z_scope.
 (* a port: callback kind, what the callback reads from its metadata, and the
    N of "name#N" (array kinds) *)
 Record port := mkPort { pk : kind; pe : penv; pn : Z }.
-Definition cell := (port * list Z)%type.       (* a port and the contents of its field *)
-Definition table := list cell.
+Notation cell := (port * list Z)%type (only parsing).   (* a port and the contents of its field *)
+Notation table := (list (port * list Z)) (only parsing).
 
 (* the text behind the port's name, None if the path does not begin with it *)
 Fixpoint strip_prefix (p s : str) : option str :=
